@@ -213,7 +213,19 @@ impl<K: BaseKey> Owner<K> {
         let Some(rec) = self.rec.as_ref() else { return };
         let key = &self.keys[signer].1;
         let calls_before = key.calls();
+        let seq = v.seq;
         let ok = guard("set_seq (probe)", || {
+            // control: re-signed at the SAME sequence number it must still be refused (otherwise
+            // set_seq repaired something else) ...
+            let mut same = rec.clone();
+            if same.set_seq(seq, key).is_err() {
+                return false;
+            }
+            let e = alloy_rlp::encode(&same);
+            if Enr::<Faulty<K>>::decode(&mut e.as_slice()).is_ok() {
+                return false;
+            }
+            // ... while at sequence number 1 the same content is accepted
             let mut c = rec.clone();
             if c.set_seq(1, key).is_err() {
                 return false;
